@@ -204,12 +204,15 @@ def _bounded(tree):
                        f"switch, found {len(ifs)} ifs")
     # the clamp (919a3ea): value = <faker call>; earliest = start in the result's zone; return max(value, earliest)
     z = ifs[2]
-    earliest = []
+    earliest, latest = [], []
     for branch in (z.body, z.orelse):
-        if len(branch) != 1 or not isinstance(branch[0], ast.Assign) or ast.unparse(branch[0].targets[0]) != "earliest":
-            raise PinError("datetime_between: the clamp no longer assigns `earliest` in both branches")
+        names = [ast.unparse(b.targets[0]) if isinstance(b, ast.Assign) else "?" for b in branch]
+        if names != ["earliest", "latest"]:
+            raise PinError(f"datetime_between: the clamp no longer assigns `earliest`, `latest` in both branches: {names}")
         earliest.append(ast.unparse(branch[0].value))
+        latest.append(ast.unparse(branch[1].value))
     out += _list_def("clampEarliest", earliest, "`earliest` for an aware / a naive result")
+    out += _list_def("clampLatest", latest, "`latest` for an aware / a naive result")
     last = body[-1]
     if not isinstance(last, ast.Return):
         raise PinError("datetime_between no longer ends with a return")
